@@ -29,6 +29,8 @@ deriving Inhabited
 inductive Draw (α : Type) where
   | unit (u : α)      -- `random()`
   | int (n : Nat)     -- `randint(a, b)`
+  | perm (p : List Nat)   -- `shuffle(x)`: position `k` of the shuffled list holds the old element `p[k]`
+  | pick (p : List Nat)   -- `sample(population, k)`: the chosen positions
 
 abbrev GM (α : Type) := StateT (List (Draw α)) (Except String)
 
@@ -51,6 +53,15 @@ def drawInt (lo hi : Int) : GM α Nat := do
   | .int n :: rest =>
       if (n : Int) < lo || hi < (n : Int) then throw "stream"
       set rest; return n
+  | [] => throw "unrecorded"
+  | _ => throw "stream"
+
+/-- `rng.shuffle(x)`: the recorded permutation applied to `x` -/
+def drawShuffle {β : Type} [Inhabited β] (x : List β) : GM α (List β) := do
+  match (← get) with
+  | .perm p :: rest =>
+      if !(p.isPerm (List.range x.length)) then throw "stream"
+      set rest; return p.map (fun i => x.getD i default)
   | [] => throw "unrecorded"
   | _ => throw "stream"
 
